@@ -12,8 +12,9 @@
 //!   c13 proj <seed> <n_gen> <n_transforms> <projects_in.jsonl|-> <out.jsonl> <workdir> [threads]
 //!        ORACLE: every project (input file first, then n_gen generated ones) is analysed with
 //!        `Project::analyse()` (all linters on) as it is and after each of n_transforms token-preserving
-//!        transformations (k%6: 0 re-spacing, 1 comments inserted/deleted, 2 case permutation, 3 all three,
-//!        4 every file joined onto one line, 5 one token per line);
+//!        transformations (k%7: 0 re-spacing, 1 comments inserted/deleted, 2 case permutation, 3 all three,
+//!        4 every file joined onto one line, 5 one token per line, 6 ONE file only: header lines
+//!        prepended / joined / split / re-spaced, the other files untouched; `M:` corpus projects: every (file, operation) pair);
 //!        diagnostics are compared through the token-index map.
 //!   c13 replay <replay.json> <workdir>               re-run one recorded (original, transformed) pair
 //!
@@ -337,6 +338,11 @@ const MODE_CASE: u32 = 4;
 const MODE_JOIN: u32 = 8;
 /// every gap becomes a line break (comments kept on lines of their own): ONE TOKEN PER LINE
 const MODE_SPLIT: u32 = 16;
+/// 3..48 blank / comment lines in front of the file, the rest untouched
+const MODE_HEADER: u32 = 32;
+/// flag in the recorded mode: only ONE file of the project was transformed (the others are untouched), so that
+/// relative positions ACROSS files change
+const MODE_ONE_FILE: u32 = 64;
 
 #[derive(Default, Clone)]
 struct TStats {
@@ -680,12 +686,43 @@ fn transform_file(symbols: &Symbols, rng: &mut Rng, text: &str, mode: u32, st: &
     Some(out)
 }
 
-fn transform_project(symbols: &Symbols, rng: &mut Rng, p: &Files, mode: u32) -> (Files, TStats) {
+fn header_lines(rng: &mut Rng) -> String {
+    let n = 3 + rng.below(46);
+    let nl = if rng.below(4) == 0 { "\r\n" } else { "\n" };
+    let mut h = String::new();
+    for _ in 0..n {
+        match rng.below(5) {
+            0 => h.push_str("-- header"),
+            1 => h.push_str("   "),
+            2 => h.push_str("/* block */"),
+            3 => h.push_str("--------------------------------------------------------------------------------"),
+            _ => {}
+        }
+        h.push_str(nl);
+    }
+    h
+}
+
+/// `only = Some(i)`: the i-th file of the project (libraries in order, files in order) is transformed, all
+/// others stay as they are
+fn transform_project(symbols: &Symbols, rng: &mut Rng, p: &Files, mode: u32, only: Option<usize>) -> (Files, TStats) {
     let mut st = TStats::default();
     let mut out = Files::new();
+    let mut idx = 0usize;
     for (lib, fs) in p {
         let mut v = Vec::new();
         for (name, text) in fs {
+            let this = only.map(|i| i == idx).unwrap_or(true);
+            idx += 1;
+            if !this {
+                v.push((name.clone(), text.clone()));
+                continue;
+            }
+            if mode & MODE_HEADER != 0 {
+                st.changed_gaps += 1;
+                v.push((name.clone(), format!("{}{}", header_lines(rng), text)));
+                continue;
+            }
             match transform_file(symbols, rng, text, mode, &mut st) {
                 Some(t) => v.push((name.clone(), t)),
                 None => {
@@ -914,30 +951,51 @@ fn compare_pair(
 }
 
 fn mode_of(k: usize) -> u32 {
-    match k % 6 {
+    match k % 7 {
         0 => MODE_SPACE,
         1 => MODE_COMMENT,
         2 => MODE_CASE,
         3 => MODE_SPACE | MODE_COMMENT | MODE_CASE,
         4 => MODE_JOIN,
-        _ => MODE_SPLIT,
+        5 => MODE_SPLIT,
+        _ => MODE_ONE_FILE,
     }
 }
+const ONE_FILE_OPS: &[u32] = &[MODE_HEADER, MODE_JOIN, MODE_SPLIT, MODE_SPACE | MODE_COMMENT];
 
 fn run_project(symbols: &Symbols, dir: &Path, seed: u64, idx: usize, p: &Proj, ntrans: usize) -> Vec<serde_json::Value> {
     let mut out = Vec::new();
     let ntok: usize = p.libs.values().flatten().map(|(_, t)| tokenize(symbols, t).toks.len()).sum();
     let nfiles: usize = p.libs.values().map(|v| v.len()).sum();
     let mut oc: Option<Result<Vec<String>, String>> = None;
+    // the plan: (mode, the one file to transform); hand-made corpus projects (`M:`) additionally get EVERY
+    // (file, one-file operation) pair
+    let mut plan: Vec<(u32, Option<usize>)> = Vec::new();
     for k in 0..ntrans {
+        let m = mode_of(k);
+        if m == MODE_ONE_FILE {
+            let mut r = Rng::new(seed ^ ((idx as u64) << 8) ^ (k as u64) ^ 0x0F11E);
+            plan.push((MODE_ONE_FILE | ONE_FILE_OPS[r.below(ONE_FILE_OPS.len())], Some(r.below(nfiles.max(1)))));
+        } else {
+            plan.push((m, None));
+        }
+    }
+    if p.id.starts_with("M:") && nfiles > 1 {
+        for f in 0..nfiles {
+            for op in ONE_FILE_OPS {
+                plan.push((MODE_ONE_FILE | *op, Some(f)));
+            }
+        }
+    }
+    for (k, (mode, only)) in plan.iter().enumerate() {
+        let (mode, only) = (*mode, *only);
         let tseed = seed
             .wrapping_mul(0x9E3779B97F4A7C15)
             .wrapping_add((idx as u64) << 20)
             .wrapping_add(k as u64);
-        let mode = mode_of(k);
         let r = catch_unwind(AssertUnwindSafe(|| {
             let mut rng = Rng::new(tseed);
-            let (trans, st) = transform_project(symbols, &mut rng, &p.libs, mode);
+            let (trans, st) = transform_project(symbols, &mut rng, &p.libs, mode & !MODE_ONE_FILE, only);
             let (o, c) = compare_pair(symbols, dir, &p.libs, oc.as_ref(), &trans);
             (trans, st, o, c)
         }));
@@ -945,7 +1003,7 @@ fn run_project(symbols: &Symbols, dir: &Path, seed: u64, idx: usize, p: &Proj, n
             Ok((trans, st, o, c)) => {
                 oc = Some(c);
                 let mut rec = serde_json::json!({
-                    "id": p.id, "k": k, "mode": mode, "tseed": tseed, "verdict": o.verdict, "detail": o.detail,
+                    "id": p.id, "k": k, "mode": mode, "only_file": only, "tseed": tseed, "verdict": o.verdict, "detail": o.detail,
                     "ndiag": o.ndiag, "codes": o.codes, "nfiles": nfiles, "ntokens": ntok,
                     "changed_case": st.changed_case, "changed_gaps": st.changed_gaps,
                     "comments_added": st.comments_added, "comments_removed": st.comments_removed,
@@ -964,7 +1022,7 @@ fn run_project(symbols: &Symbols, dir: &Path, seed: u64, idx: usize, p: &Proj, n
                     .or_else(|| e.downcast_ref::<&str>().map(|s| s.to_string()))
                     .unwrap_or_default();
                 let mut rng = Rng::new(tseed);
-                let trans = catch_unwind(AssertUnwindSafe(|| transform_project(symbols, &mut rng, &p.libs, mode).0)).ok();
+                let trans = catch_unwind(AssertUnwindSafe(|| transform_project(symbols, &mut rng, &p.libs, mode & !MODE_ONE_FILE, only).0)).ok();
                 out.push(serde_json::json!({
                     "id": p.id, "k": k, "mode": mode, "tseed": tseed, "verdict": "PANIC",
                     "detail": format!("panic in the tokenizer or the harness while transforming/comparing: {}", msg),
